@@ -22,4 +22,6 @@ def run(chk, args):
     validate_bounds_traces(chk, [
         {"family": "cached", "ns": "2,3,4,5,6" if q else "2,3,4,5,6,7,8", "count": 20 if q else 80, "length": 12 if q else 16, "interleave": 1},
         {"family": "float_sa", "ns": "3,4,5,6", "count": 12 if q else 80, "length": 10, "interleave": 1},
+        # player counts beyond 6: 2^n passes 64 (seeds C04-d, C08-d: a 64-bit key over coalitions silently wraps there)
+        {"family": "cached", "ns": "7,8", "count": 4 if q else 10, "length": 12, "interleave": 1},
     ])
